@@ -134,6 +134,13 @@ def Tlv.Fits : Tlv → Prop
   | .org oui st _ => oui.length = 3 ∧ st < 256
   | .simple t _ => t < 128
 
+/-- the fixed part of a phase-2 header: the bytes handed to the next layer lie behind it -/
+def Ext.hdrMin : Ext → Nat
+  | .mpls _ | .eapol _ | .eap _ | .icmp6 _ | .echo6 _ | .unreach6 _ | .timeEx6 | .tooBig6 _ | .gre _ => 4
+  | .vxlan _ => 8
+  | .ipv6 _ => 40
+  | _ => 0
+
 def Frame.isExt : Frame → Bool
   | .ext _ _ _ => true
   | _ => false
@@ -141,7 +148,8 @@ def Frame.isExt : Frame → Bool
 /-- **Tiling.**  Every object's bytes are its header followed by exactly the bytes handed to the next layer; only `ipv4` (bytes
 beyond the total-length field) and `udp` (payload dropped when the length field is inconsistent) cut something off, and
 `llc`/`lldp` objects that gave up keep everything in `raw`.  For the phase-2 classes (`ext`) the statement is: the bytes handed
-to the next layer are a contiguous slice of the object's bytes. -/
+to the next layer are a contiguous slice of the object's bytes that starts behind the fixed part of the header (`Ext.hdrMin`: 4 bytes
+of mpls / eapol / eap / icmpv6 and its messages / gre, 8 of vxlan, 40 of ipv6 — or the whole object when it is shorter). -/
 def Frame.Tiles : Frame → Prop
   | .raw _ | .nil | .unparsed _ _ | .lldp _ _ _ => True
   | .foreign c _ => c = "mptcp"
@@ -153,7 +161,7 @@ def Frame.Tiles : Frame → Prop
   | .udp _ r n => (∃ hd cut, hd.length = 8 ∧ r = hd ++ (n.bytes ++ cut)) ∧ n.Tiles
   | .tcp h r n => (∃ hd, hd.length = h.off * 4 ∧ r = hd ++ n.bytes) ∧ n.Tiles
   | .icmp _ r n | .echo _ r n | .unreach _ r n | .timeEx _ r n => (∃ hd, hd.length = 4 ∧ r = hd ++ n.bytes) ∧ n.Tiles
-  | .ext _ r n => (∃ hd cut, r = hd ++ (n.bytes ++ cut)) ∧ n.Tiles
+  | .ext x r n => (∃ hd cut, r = hd ++ (n.bytes ++ cut) ∧ min x.hdrMin r.length ≤ hd.length) ∧ n.Tiles
 
 /-- inside an IPv4 datagram (`l4` = directly the payload of an IPv4 header, where UDP/TCP/ICMP objects live).  Sub-chains below
 a phase-2 object carry the tiling only (`pack()` of those classes is not modelled). -/
@@ -312,18 +320,21 @@ theorem specX_goodIn (l4 : Bool) (f : Frame) (h : SpecX f) : GoodIn l4 f := by
 theorem specX_leaf (f : Frame) (h : f.isLeaf = true) : SpecX f := ⟨tiles_leaf f h, .inl h⟩
 
 /-- any slice of `raw` sits between a prefix and a suffix of `raw` -/
-theorem slice_tiles (raw : Bytes) (a b : Nat) : ∃ hd cut, raw = hd ++ (sl raw a b ++ cut) := by
+theorem slice_tiles (raw : Bytes) (a b : Nat) {k : Nat} (hk : k ≤ a := by first | (simp [Ext.hdrMin]; done) | (simp [Ext.hdrMin]; omega)) :
+    ∃ hd cut, raw = hd ++ (sl raw a b ++ cut) ∧ min k raw.length ≤ hd.length := by
+  have hl : min k raw.length ≤ (raw.take a).length := by simp [List.length_take]; omega
   by_cases h : a ≤ b
-  · exact ⟨raw.take a, raw.drop b, split3 raw a b h⟩
-  · refine ⟨[], raw, ?_⟩
+  · exact ⟨raw.take a, raw.drop b, split3 raw a b h, hl⟩
+  · refine ⟨raw.take a, raw.drop a, ?_, hl⟩
     have : sl raw a b = [] := by
       apply List.eq_nil_of_length_eq_zero
       have := sl_length_le raw a b
       omega
     simp [this]
 
-theorem drop_tiles (raw : Bytes) (a : Nat) : ∃ hd cut, raw = hd ++ (raw.drop a ++ cut) :=
-  ⟨raw.take a, [], by simpa using split2 raw a⟩
+theorem drop_tiles (raw : Bytes) (a : Nat) {k : Nat} (hk : k ≤ a := by first | (simp [Ext.hdrMin]; done) | (simp [Ext.hdrMin]; omega)) :
+    ∃ hd cut, raw = hd ++ (raw.drop a ++ cut) ∧ min k raw.length ≤ hd.length :=
+  ⟨raw.take a, [], by simpa using split2 raw a, by simp [List.length_take]; omega⟩
 
 theorem out_ok {S : Frame → Prop} {b : Bytes} (f : Frame) (hb : f.bytes = b) (hs : S f) : Out fx S b (.ok f) :=
   .inl ⟨f, rfl, hb, hs⟩
@@ -1300,10 +1311,13 @@ theorem spec_tiles (k : K) (f : Frame) (h : Spec k f) : f.Tiles := by
     | exact good_tiles f h.2
     | exact h.1
 
-theorem ext_specX (x : Ext) (r : Bytes) (n : Frame) (ht : n.Tiles) (htile : ∃ hd cut, r = hd ++ (n.bytes ++ cut)) :
+theorem ext_specX (x : Ext) (r : Bytes) (n : Frame) (ht : n.Tiles)
+    (htile : ∃ hd cut, r = hd ++ (n.bytes ++ cut) ∧ min x.hdrMin r.length ≤ hd.length) :
     SpecX (.ext x r n) := ⟨⟨htile, ht⟩, .inr rfl⟩
 
-theorem nil_tiles (r : Bytes) : ∃ hd cut, r = hd ++ (Frame.nil.bytes ++ cut) := ⟨[], r, by simp [Frame.bytes]⟩
+/-- an object without a next layer: the whole of it is header -/
+theorem nil_tiles (r : Bytes) {k : Nat} : ∃ hd cut, r = hd ++ (Frame.nil.bytes ++ cut) ∧ min k r.length ≤ hd.length :=
+  ⟨r, [], by simp [Frame.bytes], by omega⟩
 
 theorem idx_ok (b : Bytes) (i : Nat) (h : i < b.length) : ∃ v, idx b i = .ok v ∧ v < 256 := by
   unfold idx
@@ -1671,9 +1685,9 @@ theorem icmp6Body_spec (src dst : Bytes) (next : K → Bytes → P Frame) (type 
   dsimp only
   have hl : (raw.drop 4).length + 4 ≤ raw.length := by simp [List.length_drop]; omega
   have d8 : raw.drop 8 = (raw.drop 4).drop 4 := by rw [List.drop_drop]
-  have t8 : ∃ hd cut, raw.drop 4 = hd ++ ((Frame.raw (raw.drop 8)).bytes ++ cut) := by
-    show ∃ hd cut, raw.drop 4 = hd ++ (raw.drop 8 ++ cut)
-    rw [d8]; exact drop_tiles (raw.drop 4) 4
+  have t8 : ∃ hd cut, raw.drop 4 = hd ++ ((Frame.raw (raw.drop 8)).bytes ++ cut) ∧ min 4 (raw.drop 4).length ≤ hd.length := by
+    show ∃ hd cut, raw.drop 4 = hd ++ (raw.drop 8 ++ cut) ∧ min 4 (raw.drop 4).length ≤ hd.length
+    rw [d8]; exact drop_tiles (raw.drop 4) 4 (k := 4) (by omega)
   have nd : ∀ (x : Ext), Out fx (fun f => f.Tiles) (raw.drop 4) (.ok (.ext x (raw.drop 4) .nil)) :=
     fun x => .inl ⟨_, rfl, rfl, ⟨nil_tiles _, trivial⟩⟩
   have ro : ∀ (s : Site) (x : Ext), Out fx (fun f => f.Tiles) (raw.drop 4) (raiseOr fx s (pure (.ext x (raw.drop 4) .nil))) := by
